@@ -50,7 +50,7 @@ func genDHCPHistory(t *rapid.T) dhcpHistory {
 	n := rapid.IntRange(5, 80).Draw(t, "nops")
 	for i := 0; i < n; i++ {
 		op := dOp{K: rapid.SampledFrom([]string{"discover", "discover", "discover", "request", "request", "request", "request", "decline", "release", "capture", "uncapture", "tick", "foreign"}).Draw(t, "k")}
-		op.C = rapid.IntRange(0, 3).Draw(t, "c")
+		op.C = rapid.SampledFrom([]int{0, 1, 2, 3, 0, 1, 2, 3, 6}).Draw(t, "c")
 		switch op.K {
 		case "discover":
 			op.Req = rapid.SampledFrom(dReqClasses).Draw(t, "req")
